@@ -81,7 +81,7 @@ MacSpec(alg) ==
 
 \* ---- DeriveKey ----
 Methods == {"HMAC", "HASH", "PBKDF2", "NIST800_108_C", "ENCRYPT", "HKDF", "ASYMMETRIC_KEY"}
-Hashes == {"SHA_256", "SHA_1", "MD5", "SHA_512", "MD2", "NONE"}
+Hashes == {"SHA_256", "SHA_1", "MD5", "SHA_512", "MD2", "NONE", "SHA_224", "SHA_384", "RIPEMD_160", "SHA3_256", "SHA_512_256", "WHIRLPOOL"}
 SupportedHashes == {"MD5", "SHA_1", "SHA_224", "SHA_256", "SHA_384", "SHA_512"}
 \* d = [method, hash, hasdata, hassalt, hasiter]   (key material = the base object's value, always present)
 DeriveSpec(d) ==
@@ -98,8 +98,65 @@ DeriveSpec(d) ==
            [] OTHER -> Refuse("unsupported derivation method")
 
 \* ---- key wrapping ----
-WrapSpec(mode) == IF mode = "NIST_KEY_WRAP" THEN [kind |-> "term", t |-> <<"Rfc3394", "wrappingkey", "keymaterial">>, backend |-> TRUE]
-                  ELSE Refuse("unsupported key wrap algorithm")
+\* t = the kind of object asked for: a certificate or an opaque object has no key block that could carry wrapped material
+WrapTargets == {"SymmetricKey", "PublicKey", "PrivateKey", "SplitKey", "SecretData", "Certificate", "OpaqueData"}
+WrapSpec(mode, t) == IF t \in {"Certificate", "OpaqueData"} THEN Refuse("the object has no key block")
+                     ELSE IF mode = "NIST_KEY_WRAP" THEN [kind |-> "term", t |-> <<"Rfc3394", "wrappingkey", "keymaterial">>, backend |-> TRUE]
+                     ELSE Refuse("unsupported key wrap algorithm")
+
+\* ---- Sign / SignatureVerify ----
+\* the complete enumerations of the protocol: whatever the server does not implement must be REFUSED with a specific error
+AllHashes == {"MD2", "MD4", "MD5", "SHA_1", "SHA_224", "SHA_256", "SHA_384", "SHA_512", "RIPEMD_160", "TIGER", "WHIRLPOOL",
+              "SHA_512_224", "SHA_512_256", "SHA3_224", "SHA3_256", "SHA3_384", "SHA3_512"}
+AllDsas == {"MD2_WITH_RSA_ENCRYPTION", "MD5_WITH_RSA_ENCRYPTION", "SHA1_WITH_RSA_ENCRYPTION", "SHA224_WITH_RSA_ENCRYPTION",
+            "SHA256_WITH_RSA_ENCRYPTION", "SHA384_WITH_RSA_ENCRYPTION", "SHA512_WITH_RSA_ENCRYPTION", "RSASSA_PSS",
+            "DSA_WITH_SHA1", "DSA_WITH_SHA224", "DSA_WITH_SHA256", "ECDSA_WITH_SHA1", "ECDSA_WITH_SHA224", "ECDSA_WITH_SHA256",
+            "ECDSA_WITH_SHA384", "ECDSA_WITH_SHA512", "SHA3_256_WITH_RSA_ENCRYPTION", "SHA3_384_WITH_RSA_ENCRYPTION",
+            "SHA3_512_WITH_RSA_ENCRYPTION"}
+\* "NONE" is a member of the protocol's padding enumeration; "absent" = no padding method in the parameters
+AllPads == {"NONE", "OAEP", "PKCS5", "SSL3", "ZEROS", "ANSI_X923", "ISO_10126", "PKCS1v15", "X931", "PSS"}
+SigAlgs == {"RSA", "DSA", "ECDSA", "EC", "AES", "NONE"}
+DsaHash(d) == CASE d = "MD5_WITH_RSA_ENCRYPTION" -> "MD5" [] d = "SHA1_WITH_RSA_ENCRYPTION" -> "SHA_1"
+                [] d = "SHA224_WITH_RSA_ENCRYPTION" -> "SHA_224" [] d = "SHA256_WITH_RSA_ENCRYPTION" -> "SHA_256"
+                [] d = "SHA384_WITH_RSA_ENCRYPTION" -> "SHA_384" [] d = "SHA512_WITH_RSA_ENCRYPTION" -> "SHA_512"
+                [] OTHER -> "UNSUPPORTED"
+\* d = [pad, dsa, alg, hash]: the digital signature algorithm, when given, decides both algorithms
+SignSpec(d) ==
+    LET hash == IF d.dsa # "NONE" THEN DsaHash(d.dsa) ELSE d.hash
+        alg == IF d.dsa # "NONE" THEN (IF DsaHash(d.dsa) = "UNSUPPORTED" THEN "NONE" ELSE "RSA") ELSE d.alg IN
+    IF d.dsa = "NONE" /\ (d.alg = "NONE" \/ d.hash = "NONE") THEN Refuse("signature and hashing algorithm required")
+    \* what is stated besides a (supported) digital signature algorithm must agree with it: Sign may not sign with another
+    \* hash than the one the request states, and SignatureVerify must accept the parameters Sign accepted
+    ELSE IF d.dsa # "NONE" /\ DsaHash(d.dsa) # "UNSUPPORTED" /\ d.hash # "NONE" /\ d.hash # DsaHash(d.dsa) THEN Refuse("hash contradicts the digital signature algorithm")
+    ELSE IF d.dsa # "NONE" /\ DsaHash(d.dsa) # "UNSUPPORTED" /\ d.alg # "NONE" /\ d.alg # "RSA" THEN Refuse("algorithm contradicts the digital signature algorithm")
+    ELSE IF alg # "RSA" THEN Refuse("RSA signatures only")
+    ELSE IF d.pad = "absent" THEN Refuse("padding method required")
+    ELSE IF d.pad \notin {"PSS", "PKCS1v15"} THEN Refuse("unsupported signature padding")
+    ELSE IF hash \notin SupportedHashes THEN Refuse("unsupported hash")
+    ELSE [kind |-> "term", t |-> <<"RsaSign", d.pad, hash, "privatekey", "data">>, backend |-> FALSE]
+\* law: a signature term names a supported hash and one of the two signature paddings, whatever way the hash was chosen
+SignOK(d) == LET o == SignSpec(d) IN o.kind = "term" => /\ o.t[3] \in SupportedHashes /\ o.t[2] \in {"PSS", "PKCS1v15"}
+                                                       /\ (d.hash # "NONE" => o.t[3] = d.hash)      \* the stated hash is the one used
+
+\* ---- asymmetric encryption parameters (reached with a symmetric key object: the key bytes are no RSA key) ----
+\* d = [pad, hash]
+AsymSpec(d) == IF d.pad \notin {"OAEP", "PKCS1v15"} THEN Refuse("unsupported asymmetric padding")
+               ELSE IF d.pad = "OAEP" /\ d.hash \notin SupportedHashes THEN Refuse("unsupported hash")
+               ELSE Refuse("the key is no RSA key")
+
+\* ---- the rest of the enumerations: algorithms, modes and paddings the server does not implement ----
+AllAlgs == {"DES", "TRIPLE_DES", "AES", "RSA", "DSA", "ECDSA", "HMAC_SHA1", "HMAC_SHA224", "HMAC_SHA256", "HMAC_SHA384",
+            "HMAC_SHA512", "HMAC_MD5", "DH", "ECDH", "ECMQV", "BLOWFISH", "CAMELLIA", "CAST5", "IDEA", "MARS", "RC2", "RC4", "RC5",
+            "SKIPJACK", "TWOFISH", "EC", "ONE_TIME_PAD", "CHACHA20", "POLY1305", "CHACHA20_POLY1305", "SHA3_224", "SHA3_256",
+            "SHA3_384", "SHA3_512", "HMAC_SHA3_224", "HMAC_SHA3_256", "HMAC_SHA3_384", "HMAC_SHA3_512", "SHAKE_128", "SHAKE_256",
+            "ARIA", "SEED", "SM2", "SM3", "SM4", "GOST_R_34_10_2012", "GOST_R_34_11_2012", "GOST_R_34_13_2015", "GOST_28147_89",
+            "XMSS", "SPHINCS_256", "MCELIECE", "MCELIECE_6960119", "MCELIECE_8192128", "ED25519", "ED448"}
+AllModes == {"CBC", "ECB", "PCBC", "CFB", "OFB", "CTR", "CMAC", "CCM", "GCM", "CBC_MAC", "XTS", "AES_KEY_WRAP_PADDING",
+             "NIST_KEY_WRAP", "X9_102_AESKW", "X9_102_TDKW", "X9_102_AKW1", "X9_102_AKW2", "AEAD"}
+\* rows outside the main menu: one unsupported value at a time, the other parameters sound
+RestRows == {[alg |-> a, mode |-> "CBC", pad |-> "PKCS5", iv |-> "block", aad |-> FALSE, taglen |-> 0] : a \in AllAlgs \ (SymAlgs \cup OtherAlgs)}
+       \cup {[alg |-> "AES", mode |-> m, pad |-> "PKCS5", iv |-> "block", aad |-> FALSE, taglen |-> 0] : m \in AllModes \ Modes}
+       \cup {[alg |-> "AES", mode |-> m, pad |-> q, iv |-> "block", aad |-> FALSE, taglen |-> 0] : m \in {"CBC", "ECB"}, q \in AllPads \ Pads}
 
 --------------------------------------------------------------------------
 EncRows == [alg : SymAlgs \cup OtherAlgs, mode : Modes, pad : Pads, iv : IVs, aad : BOOLEAN, taglen : {0, 12, 16}]
@@ -107,16 +164,25 @@ DerRows == [method : Methods, hash : Hashes, hasdata : BOOLEAN, hassalt : BOOLEA
 
 VARIABLE row
 Init == \/ row \in [k : {"enc"}, p : {p \in EncRows : (p.taglen = 0 \/ p.mode = "GCM") /\ (p.alg \in SymAlgs \/ (p.mode = "CBC" /\ p.pad = "PKCS5" /\ p.iv = "block" /\ ~p.aad))}]
-        \/ row \in [k : {"mac"}, alg : HmacAlgs \cup SymAlgs \cup {"RSA", "NONE"}]
+        \/ row \in [k : {"enc"}, p : RestRows]
+        \/ row \in [k : {"mac"}, alg : AllAlgs \cup {"NONE"}]
+        \/ row \in [k : {"sign"}, d : {d \in [pad : AllPads \cup {"absent"}, dsa : AllDsas \cup {"NONE"}, alg : SigAlgs, hash : AllHashes \cup {"NONE"}] :
+                                        \/ d.dsa = "NONE"
+                                        \/ (d.alg = "NONE" /\ d.hash = "NONE")
+                                        \/ (d.alg = "RSA" /\ d.hash = "SHA_256" /\ d.pad \in {"PSS", "PKCS1v15"})}]
+        \/ row \in [k : {"asym"}, d : [pad : AllPads \cup {"absent"}, hash : AllHashes \cup {"NONE"}]]
         \/ row \in [k : {"derive"}, d : DerRows]
-        \/ row \in [k : {"wrap"}, mode : {"NIST_KEY_WRAP", "CBC", "NONE"}]
+        \/ row \in [k : {"wrap"}, mode : {"NIST_KEY_WRAP", "CBC", "NONE"}, t : WrapTargets]
 Next == UNCHANGED row
 Spec == Init /\ [][Next]_row
 
-Laws == row.k = "enc" => InvertsOK(row.p)
+Laws == /\ row.k = "enc" => InvertsOK(row.p)
+        /\ row.k = "sign" => SignOK(row.d)
 Emit == PrintT("@ROW@" \o ToJson(
             CASE row.k = "enc" -> [k |-> "enc", p |-> row.p, enc |-> EncryptSpec(row.p), dec |-> DecryptSpec(row.p)]
               [] row.k = "mac" -> [k |-> "mac", alg |-> row.alg, out |-> MacSpec(row.alg)]
               [] row.k = "derive" -> [k |-> "derive", d |-> row.d, out |-> DeriveSpec(row.d)]
-              [] OTHER -> [k |-> "wrap", mode |-> row.mode, out |-> WrapSpec(row.mode)]))
+              [] row.k = "sign" -> [k |-> "sign", d |-> row.d, out |-> SignSpec(row.d)]
+              [] row.k = "asym" -> [k |-> "asym", d |-> row.d, out |-> AsymSpec(row.d)]
+              [] OTHER -> [k |-> "wrap", mode |-> row.mode, t |-> row.t, out |-> WrapSpec(row.mode, row.t)]))
 =============================================================================
